@@ -2,7 +2,7 @@
 import crashcheck
 
 PID = 'C03'
-TAGS = {'crashkill', 'crashopen', 'crashview', 'crashinvented', 'recover', 'conforms', 'crashfollow'}
+TAGS = {'crashkill', 'crashopen', 'crashview', 'crashinvented', 'recover', 'conforms', 'crashfollow', 'recoverynumbers'}
 THEOREMS = [
     'Lcdb.C03.kill_recovers',
     'Lcdb.C03.kill_durable',
